@@ -54,3 +54,6 @@ package merkle
 //@   for C13 C18
 //@   ensures sp == nil ==> r == nil
 //@   ensures [fieldsCopied] sp != nil ==> fresh(r) && r.Total == sp.Total && r.Index == sp.Index && r.LeafHash == sp.LeafHash && r.Aunts == sp.Aunts
+
+// The root over a list of leaves modifies nothing (its value is the idealised hash tree of the contents).
+//@ trusted func SimpleHashFromByteSlices(items [][]byte) (r []byte)
